@@ -7,6 +7,8 @@ CONSTANTS
   UBatches <- MCUBatches
   WBatches <- MCWBatches
   Ops <- MCOps
+  ScaleArgs <- MCScaleArgs
+  MinFreqs = {1, 3, 8, 20, 100}
   RetCands <- MCRetCands
   ProjAxes <- MCProjAxes
   MergeArgs <- MCMergeArgs
